@@ -28,7 +28,7 @@
 (***************************************************************************)
 EXTENDS Naturals, Sequences, FiniteSets, TLC, Json, SequencesExt, FiniteSetsExt
 
-CONSTANTS NInst, Regs, OutSels, ReAdmin, Design, MaxOps
+CONSTANTS NInst, Regs, OutSels, OutSelsRen, ReAdmin, Design, MaxOps
 
 VARIABLES cfg,      \* [1..NInst -> configuration record]
           pend,     \* [1..NInst -> sequence of micro-steps still to do in the current call]
@@ -49,7 +49,9 @@ MM_Effect(op, arg, c) ==
   CASE op = "adm"  -> [c EXCEPT !.admin = arg, !.sens = FALSE,
                                 !.reg = IF ReAdmin = "clear" THEN 0 ELSE c.reg]
     [] op = "reg"  -> IF c.admin = "none" THEN c ELSE [c EXCEPT !.reg = arg]     \* raises without a route
-    [] op = "outs" -> [c EXCEPT !.outs = arg, !.sens = FALSE]
+    \* an output selection that leaves the renamed output out forgets its display name (OutSelsRen: the selections that
+    \* contain the output `oren` renames); selecting it again later shows it under its own name
+    [] op = "outs" -> [c EXCEPT !.outs = arg, !.sens = FALSE, !.oren = IF arg \in OutSelsRen THEN c.oren ELSE 0]
     [] op = "sens" -> [c EXCEPT !.sens = arg]
     [] op = "pren" -> [c EXCEPT !.pren = c.pren + 1]
     [] op = "oren" -> [c EXCEPT !.oren = c.oren + 1]
@@ -96,7 +98,7 @@ AllIdle == \A m \in Inst : Idle(m)
 
 Ops(c) == {<<"adm", a>> : a \in {"direct", "indirect"}} \cup {<<"reg", r>> : r \in Regs}
           \cup {<<"outs", o>> : o \in OutSels} \cup {<<"sens", b>> : b \in BOOLEAN}
-          \cup (IF c.pren = 0 THEN {<<"pren", 0>>} ELSE {}) \cup (IF c.oren = 0 THEN {<<"oren", 0>>} ELSE {})
+          \cup (IF c.pren = 0 THEN {<<"pren", 0>>} ELSE {}) \cup (IF c.oren = 0 /\ c.outs \in OutSelsRen THEN {<<"oren", 0>>} ELSE {})
           \cup {<<"sim", 0>>} \cup {<<"bad", k>> : k \in BadKinds}
 
 MM_Call(m, op, arg) ==
